@@ -148,6 +148,10 @@ def extract_linter_sections(template: str) -> dict[str, str]:
     return sections
 
 
+# Template section name -> the other name under which the same linter reads its configuration
+_SECTION_SYNONYMS = {"print-statements": "improper-logging", "pipeline": "collection-pipeline"}
+
+
 def identify_missing_sections(existing_config: dict, all_sections: list[str]) -> list[str]:
     """Identify which linter sections are missing from existing config.
 
@@ -161,7 +165,11 @@ def identify_missing_sections(existing_config: dict, all_sections: list[str]) ->
     # Config loading treats "magic_numbers" and "magic-numbers" as the same section, so a section
     # present under either spelling is not missing (adding it again would override the user's values)
     present = {key.replace("_", "-") for key in existing_config if isinstance(key, str)}
-    return [s for s in all_sections if s not in present]
+    # A linter that is also configured under another section name must not get the template's section
+    # on top of the user's: the print-statements section takes precedence over improper-logging
+    return [
+        s for s in all_sections if s not in present and _SECTION_SYNONYMS.get(s) not in present
+    ]
 
 
 def _find_global_settings_position(content: str) -> int:
